@@ -283,6 +283,55 @@ pub fn lopsided_and_joint(d: &mut Driver, salt: u8) {
     }
 }
 
+/// (run last: the coins it leaves behind make every later event's projection large)
+pub fn many_swaps(d: &mut Driver) {
+        // 270 swap requests against one pool in one block (140 + 130): nothing in settlement may work in windows of 128 / 256 requests
+        {
+            let a = d.wal.address(CovKind::True);
+            let mut coins: Vec<(CoinID, CoinDataHeight)> = vec![];
+            for (salt, den) in [(70u8, Denom::Mel), (71u8, Denom::Sym)] {
+                let mut outs = vec![];
+                for j in 0..(if den == Denom::Mel { 140u128 } else { 130u128 }) {
+                    outs.push(mk_coin(a, 40_000_000 + j, den, &[]));
+                }
+                if den != Denom::Mel {
+                    for j in 0..120u128 {
+                        outs.push(mk_coin(a, 30_000_000 + j, Denom::Mel, &[]));
+                    }
+                }
+                let f = d.faucet(outs, 0, salt);
+                if d.apply(&[f.clone()], 0, json!({"why": "holders for a block of 260 swaps"})) {
+                    let h = d.view().height;
+                    for (j, o) in f.outputs.iter().enumerate() {
+                        coins.push((CoinID::new(f.hash_nosigs(), j as u8), CoinDataHeight { coin_data: o.clone(), height: h }));
+                    }
+                }
+            }
+            let k = PoolKey::new(Denom::Mel, Denom::Sym);
+            let mels: Vec<_> = coins.iter().filter(|c| c.1.coin_data.denom == Denom::Mel && c.1.coin_data.value.0 >= 40_000_000).cloned().collect();
+            let syms: Vec<_> = coins.iter().filter(|c| c.1.coin_data.denom == Denom::Sym).cloned().collect();
+            let fees: Vec<_> = coins.iter().filter(|c| c.1.coin_data.denom == Denom::Mel && c.1.coin_data.value.0 < 40_000_000).cloned().collect();
+            let mut batch = vec![];
+            for (j, c) in mels.iter().enumerate() {
+                let to = d.wal.address(CovKind::New(j % 4));
+                if let Some(t) = d.build(TxKind::Swap, &[c.clone()], vec![mk_coin(to, 1_000_000 + 7 * j as u128, Denom::Mel, &[])], 1, k.to_bytes().to_vec(), 0) {
+                    batch.push(t);
+                }
+            }
+            for (j, c) in syms.iter().enumerate() {
+                let to = d.wal.address(CovKind::New(j % 4));
+                let fee = fees[j % fees.len().max(1)].clone();
+                if j < fees.len() {
+                    if let Some(t) = d.build(TxKind::Swap, &[c.clone(), fee], vec![mk_coin(to, 2_000_000 + 11 * j as u128, Denom::Sym, &[])], 1, k.to_bytes().to_vec(), 0) {
+                        batch.push(t);
+                    }
+                }
+            }
+            d.apply(&batch, 0, json!({"why": format!("{} swap requests against MEL/SYM in one block", batch.len())}));
+            d.seal_next(Some(true));
+        }
+}
+
 pub fn swap_history(out: &mut crate::Out, tag: &str, seed: u64, net: NetID, blocks: usize, big: bool, forged: bool) {
     use std::collections::BTreeMap;
     let mut d = Driver::new(out, tag, seed, net, 300, Denom::Mel, 1u128 << 70, 1 << 30, BTreeMap::new());
@@ -602,5 +651,9 @@ pub fn swap_history(out: &mut crate::Out, tag: &str, seed: u64, net: NetID, bloc
             }
         }
         d.seal_next(None);
+    }
+    // (in the histories whose pools keep ordinary sizes: against reserves of 2^100 and more every small swap rounds the same way)
+    if !big && !forged && net != NetID::Mainnet {
+        many_swaps(&mut d);
     }
 }
